@@ -66,17 +66,19 @@ theorem queryInfoFrom_single (skip : Bool) (c : Catalog) (ctes : List Name) (i :
 (SQL-capable, not files/views) — or, with the repaired `get_query_info`, bare CTE names — is sent to `i` -/
 theorem checkSingle_of_fine (skip : Bool) (c : Catalog) (ctes : List Name) (i : Name) (items : List Item)
     (hne : items.any (counted skip ctes) = true) (hall : ∀ it ∈ items, itemFine skip c ctes i it)
-    (hi : i ∉ c.projects) (hf : i ≠ n!"files") (hv : i ≠ n!"views") (hapi : c.classType i ≠ some n!"api") :
+    (hi : i ∉ c.projects) (hf : i ≠ n!"files") (hv : i ≠ n!"views") (hapi : c.classType i ≠ some n!"api")
+    (hcap : cteCaptures ctes items = false) :
     checkSingle skip c ctes items = some i := by
   obtain ⟨p', hq⟩ := queryInfoFrom_single skip c ctes i hi items ⟨0, [], 0, 0⟩ hall rfl rfl (Or.inl rfl)
   simp only [checkSingle, queryInfo, hq, hne, if_true]
-  simp [hf, hv, hapi]
+  simp [hf, hv, hapi, hcap]
 
 theorem checkSingle_of_single (c : Catalog) (ctes : List Name) (i : Name) (items : List Item)
     (hne : items ≠ []) (hall : allResolveTo c i items) (hi : i ∉ c.projects)
-    (hf : i ≠ n!"files") (hv : i ≠ n!"views") (hapi : c.classType i ≠ some n!"api") :
+    (hf : i ≠ n!"files") (hv : i ≠ n!"views") (hapi : c.classType i ≠ some n!"api")
+    (hcap : cteCaptures ctes items = false) :
     checkSingle false c ctes items = some i := by
-  apply checkSingle_of_fine false c ctes i items ?_ ?_ hi hf hv hapi
+  apply checkSingle_of_fine false c ctes i items ?_ ?_ hi hf hv hapi hcap
   · cases items with
     | nil => exact absurd rfl hne
     | cons a r =>
@@ -186,7 +188,8 @@ def pushedOk (skip : Bool) (c : Catalog) (ctes : List Name) (i : Name) (it : Ite
 
 theorem checkSingle_sound (skip : Bool) (c : Catalog) (ctes : List Name) (items : List Item) (i : Name)
     (h : checkSingle skip c ctes items = some i) :
-    (∀ it ∈ items, pushedOk skip c ctes i it) ∧ i ≠ n!"files" ∧ i ≠ n!"views" ∧ c.classType i ≠ some n!"api" := by
+    (∀ it ∈ items, pushedOk skip c ctes i it) ∧ i ≠ n!"files" ∧ i ≠ n!"views" ∧ c.classType i ≠ some n!"api" ∧
+      cteCaptures ctes items = false := by
   unfold checkSingle at h
   cases hq : queryInfo skip c ctes items with
   | none => simp [hq] at h
@@ -200,7 +203,7 @@ theorem checkSingle_sound (skip : Bool) (c : Catalog) (ctes : List Name) (items 
       split at h
       · rename_i hcond
         simp only [Option.some.injEq] at h; subst h
-        refine ⟨?_, hcond.1, hcond.2.1, hcond.2.2⟩
+        refine ⟨?_, hcond.1, hcond.2.1, hcond.2.2.1, hcond.2.2.2⟩
         obtain ⟨_, hall⟩ := queryInfoFrom_spec skip c ctes items _ _ hq
         intro it hit
         have := hall it hit
